@@ -15,7 +15,7 @@ Cover ==
   IF nd.phase = "idle" /\ sched # <<>> /\ Key \notin TLCGet(1)
   THEN /\ TLCSet(1, TLCGet(1) \cup {Key})
        /\ JsonSerialize("out/s_" \o ToString(Cardinality(TLCGet(1))) \o ".json",
-                        [name |-> cf.name \o ":tlc-" \o ToString(Cardinality(TLCGet(1))), chain |-> cf.chain, stored_version |-> VerStr(cf.ver), min_swap_msat |-> cf.minmsat, steps |-> sched, expect |-> SetToSeq(viol),
+                        [name |-> cf.name \o ":tlc-" \o ToString(Cardinality(TLCGet(1))), chain |-> cf.chain, stored_version |-> VerStr(cf.ver), min_swap_msat |-> cf.minmsat, accept_all |-> cf.acceptall, steps |-> sched, expect |-> SetToSeq(viol),
                          expect_disk |-> SetToSeq({<<s, nd.disk[s].role, nd.disk[s].cur>> : s \in DOMAIN nd.disk}), expect_active |-> SetToSeq({<<s, nd.mem[s].cur>> : s \in nd.reg})])
   ELSE TRUE
 ===============================================================================
